@@ -224,7 +224,7 @@ func runC03(c *core.Ctx) *core.Violation {
 		e.WaitUntil(end, 100*time.Millisecond, func() bool { return s.Now() >= end })
 		if stalls {
 			// injected stalls burn simulated time while ready tasks do not run: only "eventually" is judged
-			e.WaitUntil(300*time.Second, 200*time.Millisecond, func() bool { return len(dataLog(e.Tgt)) >= len(want) })
+			e.WaitUntil(300*time.Second, 200*time.Millisecond, func() bool { return len(e.IncrLog()) >= len(want) })
 		}
 		diag = e.Diag()
 	})
@@ -240,7 +240,7 @@ func runC03(c *core.Ctx) *core.Violation {
 		return core.Violate("abort", "err="+env.ErrClass(lc.LastPanic()), "the tool aborted: %s", lc.LastPanic())
 	}
 	// ---- oracle: order, exactly once, db, arguments
-	got := dataLog(e.Tgt)
+	got := e.IncrLog()
 	site := fmt.Sprintf("resume=%v,start=%s", resume, []string{"full", "continue"}[startMode])
 	for i := 0; i < len(got) || i < len(want); i++ {
 		if i >= len(want) {
